@@ -82,3 +82,11 @@ def handler_variant() -> str:
 # Generic.tla: AnyAttrPolicy "expand" as shipped (F18 open)
 def generic_variant() -> str:
     return os.environ.get("XV_GENERIC_VARIANT", "expand")
+
+
+# Pycode.tla: "repaired" after the fix: commits for F9a/F9b
+PYCODE = {"shipped": {"EnumNamePolicy": "name", "SeqPolicy": "list"}, "repaired": {"EnumNamePolicy": "qualname", "SeqPolicy": "kind"}}
+
+
+def pycode_variant() -> dict:
+    return PYCODE[os.environ.get("XV_PYCODE_VARIANT", "repaired")]
